@@ -162,6 +162,10 @@ def _roots_are_arg(f, op, argno, depth=0):
         elif o.kind == "cast":
             if not _roots_are_arg(f, o.rv["op"], argno, depth + 1):
                 return False
+        elif o.kind == "call" and "core::convert::num::<impl core::convert::From<" in o.call.name and o.call.name.endswith("::from"):
+            # std only implements From between integer / float types when the conversion is lossless
+            if not _roots_are_arg(f, o.call.args[0], argno, depth + 1):
+                return False
         elif o.kind == "agg" and len(o.rv["ops"]) == 1:
             if not _roots_are_arg(f, o.rv["ops"][0], argno, depth + 1):
                 return False
